@@ -22,6 +22,7 @@ def run(repo, report, tier):
     report.guard("C13.R2", "make_quality_trimmers", r2_which_trimmers, repo, report)
     report.guard("C13.R2", "parameter roles", r2_roles, repo, report)
     report.guard("C13.R3", "scans", r3_scans, repo, report)
+    report.guard("C13.R3", "decoded qualities are signed", r3_signed_qualities, repo, report)
     report.notes.append("Not decided: that this scan computes the stated arg-min for every quality string (a statement about sums of runtime values); R3 fixes the tie and stop rules and the recorded positions, nothing more.")
 
 
@@ -369,3 +370,31 @@ def r3_scans(repo, report):
                 uses.append(src(par))
         ok = bool(uses) and all(u.replace(" ", "") in ("qual[i]-base",) for u in uses)
         report.ob("C13.R4", f"{label}: uses of the quality base", ok, facts={"uses": uses}, expected="only qual[i] - base", loc=repo.loc(fn_))
+
+
+_SIGNED_C_TYPES = {"int", "long", "long long", "Py_ssize_t", "ssize_t", "short", "double", "float"}
+
+
+def r3_signed_qualities(repo, report):
+    """quality - base is negative for characters below the quality base, and the NextSeq rule sets a G to cutoff - 1, which is
+    -1 for cutoff 0.  The locals that hold a decoded quality or the running sum must have a signed C type: an unsigned one
+    wraps a negative value to a large positive one and ends the scan."""
+    n = 0
+    for fname in ("quality_trim_index", "nextseq_trim_index"):
+        fn = repo.func("qualtrim", fname)
+        if fn is None:
+            continue
+        decl = {x.target.id: (x.annotation.value if isinstance(x.annotation, ast.Constant) else src(x.annotation)) for x in ast.walk(fn) if isinstance(x, ast.AnnAssign) and isinstance(x.target, ast.Name)}
+        holders = set()
+        for x in ast.walk(fn):
+            if isinstance(x, (ast.Assign, ast.AugAssign)):
+                tgt = x.targets[0] if isinstance(x, ast.Assign) else x.target
+                if isinstance(tgt, ast.Name) and any(isinstance(y, ast.BinOp) and isinstance(y.op, ast.Sub) for y in ast.walk(x.value)) or (isinstance(x, ast.AugAssign) and isinstance(tgt, ast.Name)):
+                    if isinstance(tgt, ast.Name):
+                        holders.add(tgt.id)
+        bad = {h: decl.get(h) for h in sorted(holders) if h in decl and str(decl[h]).replace("unsigned ", "u") not in _SIGNED_C_TYPES and not str(decl[h]).endswith("*")}
+        n += 1
+        report.ob("C13.R3", f"{fname}: quality arithmetic in signed variables", not bad and bool(holders & set(decl)), facts={"variables": {h: decl.get(h) for h in sorted(holders)}, "unsigned": bad}, loc=repo.loc(fn),
+                  expected="int (signed) for the decoded quality, the deficit and the running sum",
+                  why=(f"'{next(iter(bad))}' is declared {bad[next(iter(bad))]}: a quality below the base (or a G at cutoff 0) becomes a large positive number, the running sum turns positive and the scan stops - the quality base no longer 'only shifts the scale'" if bad else ""))
+    report.floor("C13.R3", "scan functions", n, 2)
